@@ -53,7 +53,8 @@ CLASSES = ["ends", "interleaved", "aligned", "zero", "tight", "exceptions"]
 def plan(tier):
     n = 2500 if tier == "quick" else 400000
     return [(c, n) for c in CLASSES] + \
-        [("many", 32 if tier == "quick" else 600)]
+        [("many", 32 if tier == "quick" else 600),
+         ("wide", 48 if tier == "quick" else 1500)]
 
 
 def gen_many(rng):
@@ -92,9 +93,51 @@ def gen_many(rng):
                 placements=placements)
 
 
+def gen_wide(rng):
+    """hundreds of chips each holding a few vertices, the placement listed
+    vertex-major (population by population), so that every chip is come back
+    to after all the others"""
+    w, h = rng.choice([(12, 12), (12, 12), (24, 12), (16, 9), (40, 4),
+                       (24, 24), (129, 1), (13, 10)])
+    cores, sdram = rng.choice([3, 4, 18]), rng.choice([64, 100, 1000])
+    m = dict(w=w, h=h, res={"Cores": cores, "SDRAM": sdram}, exc={},
+             dead_chips=[], dead_links=[])
+    chips = [(x, y) for x in range(w) for y in range(h)]
+    for xy in rng.sample(chips, rng.randint(0, 5)):
+        m["dead_chips"].append(xy)
+    live = [c for c in chips if c not in set(m["dead_chips"])]
+    for xy in rng.sample(live, rng.randint(0, 6)):
+        m["exc"][xy] = {"Cores": rng.randint(1, cores), "SDRAM": sdram}
+    cons = []
+    if rng.random() < .5:
+        cons.append(("reserve", "Cores", 0, 1, None))
+    if rng.random() < .3:
+        cons.append(("reserve", "SDRAM", sdram - 8, sdram, None))
+    if rng.random() < .3:
+        cons.append(("align", "SDRAM", 4))
+    per = rng.randint(2, 3)
+    vertices, placements = [], []
+    for k in range(per):
+        for xy in live:
+            if rng.random() < .05:
+                continue
+            cap = par.capacity(m, cons, xy)
+            q = dict(Cores=1 if cap["Cores"] >= per else 0,
+                     SDRAM=rng.choice([0, 4, 8, 12]))
+            v = ("pop%d" % k, xy[0], xy[1])
+            vertices.append((v, q))
+            placements.append((v, xy))
+    if rng.random() < .3:
+        rng.shuffle(placements)
+    return dict(machine=m, vertices=vertices, nets=[], constraints=cons,
+                placements=placements)
+
+
 def gen(cls, idx, rng, tier):
     if cls == "many":
         return gen_many(rng)
+    if cls == "wide":
+        return gen_wide(rng)
     m = par.gen_machine(rng, max_w=4, max_h=4,
                         p_exc=0.9 if cls == "exceptions" else 0.3,
                         res=dict({"Cores": rng.choice([1, 4, 18]),
